@@ -4,6 +4,7 @@ go 1.23.7
 
 require (
 	github.com/beevik/etree v1.3.0
+	github.com/muhlemmer/httpforwarded v0.1.0
 	github.com/russellhaering/goxmldsig v1.4.0
 	github.com/sirupsen/logrus v1.8.1
 	github.com/zitadel/logging v0.5.0
@@ -19,7 +20,6 @@ require (
 	github.com/gorilla/handlers v1.5.2 // indirect
 	github.com/gorilla/mux v1.8.1 // indirect
 	github.com/jonboulle/clockwork v0.2.2 // indirect
-	github.com/muhlemmer/httpforwarded v0.1.0 // indirect
 	golang.org/x/exp v0.0.0-20230817173708-d852ddb80c63 // indirect
 	golang.org/x/sys v0.29.0 // indirect
 )
